@@ -58,6 +58,8 @@ def op_jdn(op):
         return [Kw("trw"), op[1], op[2], op_jdn(op[3])]
     if k == "tcd":
         return [Kw("tcd"), op_jdn(op[1])]
+    if k == "badnr":
+        return [Kw("badnr"), op[1], op_jdn(op[2])]
     raise ValueError(op)
 
 
@@ -75,7 +77,7 @@ def act_jdn(a):
 
 def item_for(cfg, hist):
     return jdn({Kw("caps"): list(cfg["caps"]), Kw("nw"): cfg["nw"], Kw("npipes"): cfg.get("npipes", 0), Kw("nprocs"): cfg.get("nprocs", 0),
-                Kw("hist"): [act_jdn(a) for a in hist]})
+                Kw("tchan"): bool(cfg.get("tchan")), Kw("hist"): [act_jdn(a) for a in hist]})
 
 
 def decode_trace(text):
@@ -112,6 +114,10 @@ def make_actions(cfg):
                    ("dlc", 1, ("sleep", 3))]
             if nchan:
                 ops.append(("dlc", 1, ("take", 0)))
+            # socket calls rejected for bad arguments while carrying a timeout, then a real wait
+            ops.append(("badnr", 0.5, ("sleep", 3)))
+            if nchan:
+                ops.append(("badnr", 0.5, ("take", 0)))
             if cfg.get("focus") == "thread":
                 # a thread call abandoned at its deadline, the thread finishing afterwards, then a real wait (every
                 # such history costs real-time patience for the live thread, hence a configuration of its own)
@@ -157,7 +163,7 @@ def make_actions(cfg):
             def reads(o):
                 if o[0] == "trw":
                     return o[1]
-                if o[0] == "tcd":
+                if o[0] in ("tcd", "badnr"):
                     return None
                 o2 = o[2] if o[0] in ("dl", "dlc") else (o[3] if o[0] == "badw" else o)
                 return o2[1] if o2[0] in ("read", "chunk") else None
@@ -205,6 +211,8 @@ def shape(a):
             return "trw(" + osh(op[3]) + ")"
         if op[0] == "tcd":
             return "tcd(" + osh(op[1]) + ")"
+        if op[0] == "badnr":
+            return "badnr(" + osh(op[2]) + ")"
         return op[0]
     return a[0] + (":" + osh(a[2]) if a[0] == "start" else "")
 
@@ -259,7 +267,7 @@ def judge(m, a, obs):
 
 def replay_text(cfg, hist, what):
     lines = ["# Replay with real time (plain janet). Each worker prints when its operation ends.",
-             "(def chans (map |(ev/chan $) %s))" % jdn(list(cfg["caps"])),
+             "(def chans (map |(%s $) %s))" % ("ev/thread-chan" if cfg.get("tchan") else "ev/chan", jdn(list(cfg["caps"]))),
              "(def pipes (seq [_ :range [0 %d]] (os/pipe)))" % cfg.get("npipes", 0),
              "(def t0 (os/clock :monotonic))",
              "(def fibers @{})",
@@ -297,6 +305,9 @@ def replay_text(cfg, hist, what):
             return "(os/proc-wait (procs %d))" % op[1]
         if k == "dlc":
             return "(do (resume (coro (ev/deadline %s) :done)) %s)" % (op[1], oe(op[2]))
+        if k == "badnr":
+            return ("(do (protect (net/read sock -1 nil %s)) (protect (net/chunk sock 1.5 nil %s)) (protect (net/write sock 12345 %s)) %s)"
+                    "   # sock: any connected socket stream" % (op[1], op[1], op[1], oe(op[2])))
         if k == "tcd":
             return ("(do (def tc (ev/thread-chan 1)) (try (ev/with-deadline 0.5 (ev/thread (fn [tc] (ev/take tc)) tc)) ([e] nil)) "
                     "(ev/give tc 1) %s)" % oe(op[1]))
@@ -319,7 +330,8 @@ def replay_text(cfg, hist, what):
 
 
 def explore(chk, cfg, depth, max_states=None, stop_at=None):
-    label = "caps=%s pipes=%d procs=%d workers=%d" % (list(cfg["caps"]), cfg.get("npipes", 0), cfg.get("nprocs", 0), cfg["nw"])
+    label = "caps=%s pipes=%d procs=%d workers=%d%s" % (list(cfg["caps"]), cfg.get("npipes", 0), cfg.get("nprocs", 0), cfg["nw"],
+                                                            " thread-channels" if cfg.get("tchan") else "")
     init = TModel(cfg["caps"], cfg["nw"], cfg.get("npipes", 0), cfg.get("nprocs", 0))
 
     def run_layer(hists):
@@ -356,6 +368,60 @@ def explore(chk, cfg, depth, max_states=None, stop_at=None):
     return r
 
 
+# fixed scripts on thread channels used from one thread: the waits involved are outside the director's model
+SCRIPTS = {
+    "tchan-abandoned-select-then-give": ("""
+(def tc (ev/thread-chan 0)) (def other (ev/chan)) (def park (ev/chan)) (def log @[])
+(ev/spawn (array/push log [:select (ev/select tc other)]) (array/push log [:park (ev/take park)]))
+(ev/sleep 0.01)
+(ev/give other :via-other)          # the waiter is satisfied through the other clause; its entry on tc is stale
+(ev/sleep 0.01)
+(ev/give tc :msg)
+(var writer-done false)
+(ev/spawn (ev/give tc :second) (set writer-done true))
+(ev/sleep 0.05)
+(def n (ev/count tc)) (def released writer-done)
+(def got @[])
+(ev/spawn (array/push got (ev/take tc)) (array/push got (ev/take tc)))
+(ev/sleep 0.05)
+(ev/give park :done)
+(ev/sleep 0.01)
+(printf "%j" [n released got (map first log) (get-in log [0 1 2]) (get-in log [1 1])])
+""", '(2 false @[:msg :second] @[:select :park] :via-other :done)',
+        "a message given to a thread channel whose only registered reader has abandoned its wait stays in the channel; "
+        "the waiter is not disturbed in its next wait and a later writer stays blocked until somebody takes"),
+    "tchan-abandoned-take-then-give": ("""
+(def tc (ev/thread-chan 0)) (def park (ev/chan)) (def log @[])
+(def f (ev/spawn (array/push log [:first (try (ev/take tc) ([e] e))]) (array/push log [:park (ev/take park)])))
+(ev/sleep 0.01)
+(ev/cancel f :stop)
+(ev/sleep 0.01)
+(ev/spawn (ev/give tc :msg))
+(ev/sleep 0.05)
+(def n (ev/count tc))
+(def got @[])
+(ev/spawn (array/push got (ev/take tc)))
+(ev/sleep 0.05)
+(ev/give park :done)
+(ev/sleep 0.01)
+(printf "%j" [n got log])
+""", '(1 @[:msg] @[(:first :stop) (:park :done)])',
+        "a message given after the only reader was cancelled stays queued for the next reader"),
+}
+
+
+def part_scripts(chk):
+    for name, (src, want, meaning) in sorted(SCRIPTS.items()):
+        r = run_script("fast", src, env={"VERIF_VTIME": "1"}, timeout=60)
+        chk.add(evaluations=1, transitions=1, states=1)
+        got = r.out.decode(errors="replace").strip()
+        chk.outcome(("script", name, got[:80]))
+        if r.timed_out or r.rc != 0 or got != want:
+            chk.violation("script:%s" % name, "%s: observed %r (rc=%s%s), expected %r" % (
+                meaning, got[:300], r.rc, " timed out" if r.timed_out else "", want), src, replay_cmd="janet <file>")
+    chk.part("scripts", count=len(SCRIPTS))
+
+
 def main():
     chk = Check("C07")
     chk.rule("BFS over director histories under virtual time: start {sleep 1|3, give, take, close, select (2 clauses), "
@@ -380,6 +446,11 @@ def main():
                 (dict(caps=(), nw=3, npipes=2), 5), (dict(caps=(0,), nw=2, nprocs=1, npipes=1, free_tick=True, focus="proc"), 6),
                 (dict(caps=(), nw=2, nprocs=2, npipes=1, free_tick=True), 4),
                 (dict(caps=(0,), nw=2, free_tick=True, focus="thread"), 5)]
+    # (cfg key tchan=True runs a configuration on thread channels used from one thread. It is not part of either tier:
+    #  thread channels forward the wake-up of an abandoned writer to the next writer, which completes a give while the
+    #  channel is still over capacity - the positional rule of ordinary channels does not hold there. Thread channels are
+    #  C08's subject; see DESIGN.md section 10.)
+    part_scripts(chk)
     cfgs.sort(key=lambda cd: 0 if cd[0].get("focus") else 1)
     done = []
     for i, (cfg, depth) in enumerate(cfgs):
